@@ -173,7 +173,16 @@ pub fn stable(acs: &[F]) -> Vec<Interp> {
 /// the number of undecided support variables.
 pub fn eval3(f: &F, v: &[Tv]) -> Tv {
     let sup: Vec<usize> = f.support().into_iter().filter(|&i| v[i] == Tv::U).collect();
-    assert!(sup.len() <= 22, "support too large for local evaluation");
+    if sup.len() > 22 {
+        // wide conditions (parity / chains over dozens of statements): when every undecided statement occurs only once
+        // in the formula, the sub-formulas range over disjoint undecided statements and strong Kleene evaluation is exact
+        // (by induction: a sub-formula evaluates to U iff it takes both values over the completions, independently of its
+        // siblings)
+        let mut occ = std::collections::HashMap::new();
+        count_occurrences(f, &mut occ);
+        assert!(sup.iter().all(|i| occ.get(i) == Some(&1)), "support too large for local evaluation and the formula is not read-once");
+        return kleene(f, v);
+    }
     let mut any_t = false;
     let mut any_f = false;
     for a in 0..(1u64 << sup.len()) {
@@ -198,6 +207,47 @@ pub fn eval3(f: &F, v: &[Tv]) -> Tv {
         Tv::T
     } else {
         Tv::F
+    }
+}
+
+fn count_occurrences(f: &F, occ: &mut std::collections::HashMap<usize, usize>) {
+    match f {
+        F::Top | F::Bot => {}
+        F::Atom(i) => *occ.entry(*i).or_insert(0) += 1,
+        F::Not(a) => count_occurrences(a, occ),
+        F::And(a, b) | F::Or(a, b) | F::Imp(a, b) | F::Iff(a, b) | F::Xor(a, b) => {
+            count_occurrences(a, occ);
+            count_occurrences(b, occ);
+        }
+    }
+}
+
+/// strong Kleene evaluation (exact for formulas in which every undecided statement occurs once)
+fn kleene(f: &F, v: &[Tv]) -> Tv {
+    let neg = |t: Tv| match t {
+        Tv::T => Tv::F,
+        Tv::F => Tv::T,
+        Tv::U => Tv::U,
+    };
+    let and = |a: Tv, b: Tv| if a == Tv::F || b == Tv::F { Tv::F } else if a == Tv::T && b == Tv::T { Tv::T } else { Tv::U };
+    match f {
+        F::Top => Tv::T,
+        F::Bot => Tv::F,
+        F::Atom(i) => v[*i],
+        F::Not(a) => neg(kleene(a, v)),
+        F::And(a, b) => and(kleene(a, v), kleene(b, v)),
+        F::Or(a, b) => neg(and(neg(kleene(a, v)), neg(kleene(b, v)))),
+        F::Imp(a, b) => neg(and(kleene(a, v), neg(kleene(b, v)))),
+        F::Iff(a, b) | F::Xor(a, b) => {
+            let (x, y) = (kleene(a, v), kleene(b, v));
+            if x == Tv::U || y == Tv::U {
+                Tv::U
+            } else if (x == y) == matches!(f, F::Iff(..)) {
+                Tv::T
+            } else {
+                Tv::F
+            }
+        }
     }
 }
 
@@ -250,6 +300,90 @@ pub fn stable_wide(acs: &[F]) -> (Vec<Interp>, Vec<Interp>) {
     (res, two)
 }
 
+
+/// Two-valued models of an ADF of any width in which only few statements lie on dependency cycles: the values of the
+/// statements on cycles are enumerated (2^c assignments), every other statement is a function of statements that come
+/// earlier in a topological order of the (acyclic) rest and is computed by evaluating its condition. Exact; None if more
+/// than 16 statements lie on cycles.
+pub fn two_valued_sparse(acs: &[F]) -> Option<Vec<Interp>> {
+    let n = acs.len();
+    let deps: Vec<Vec<usize>> = acs.iter().map(|f| f.support().into_iter().collect()).collect();
+    // cyclic[i]: i reaches itself through at least one dependency edge
+    let mut cyclic = vec![false; n];
+    for i in 0..n {
+        let mut seen = vec![false; n];
+        let mut stack: Vec<usize> = deps[i].clone();
+        while let Some(x) = stack.pop() {
+            if x == i {
+                cyclic[i] = true;
+                break;
+            }
+            if std::mem::replace(&mut seen[x], true) {
+                continue;
+            }
+            stack.extend(deps[x].iter().copied());
+        }
+    }
+    let cyc: Vec<usize> = (0..n).filter(|&i| cyclic[i]).collect();
+    if cyc.len() > 16 {
+        return None;
+    }
+    // topological order of the acyclic statements (dependencies first), iterative DFS
+    let mut order = Vec::new();
+    let mut state = vec![0u8; n];
+    for root in 0..n {
+        if cyclic[root] || state[root] != 0 {
+            continue;
+        }
+        let mut stack = vec![(root, 0usize)];
+        state[root] = 1;
+        while let Some((x, k)) = stack.pop() {
+            if k < deps[x].len() {
+                stack.push((x, k + 1));
+                let d = deps[x][k];
+                if !cyclic[d] && state[d] == 0 {
+                    state[d] = 1;
+                    stack.push((d, 0));
+                }
+            } else {
+                state[x] = 2;
+                order.push(x);
+            }
+        }
+    }
+    let mut res = Vec::new();
+    let mut v = vec![false; n];
+    for a in 0..(1u64 << cyc.len()) {
+        for (j, &c) in cyc.iter().enumerate() {
+            v[c] = (a >> j) & 1 == 1;
+        }
+        for &x in &order {
+            v[x] = acs[x].eval(&|i| v[i]);
+        }
+        if cyc.iter().all(|&c| acs[c].eval(&|i| v[i]) == v[c]) {
+            res.push(v.iter().map(|&b| if b { Tv::T } else { Tv::F }).collect());
+        }
+    }
+    res.sort();
+    Some(res)
+}
+
+/// Stable models by the definition for wide ADFs with few statements on cycles (see `two_valued_sparse`): each
+/// two-valued model is tested with the grounded interpretation of its reduct (local three-valued evaluation).
+pub fn stable_sparse(acs: &[F]) -> Option<(Vec<Interp>, Vec<Interp>)> {
+    let two = two_valued_sparse(acs)?;
+    let mut res = Vec::new();
+    for v in &two {
+        let reduct: Vec<F> = acs.iter().map(|f| f.subst(&|i| if v[i] == Tv::F { Some(false) } else { None })).collect();
+        let (g, _) = grounded_local(&reduct);
+        if (0..acs.len()).all(|s| v[s] != Tv::T || g[s] == Tv::T) {
+            res.push(v.clone());
+        }
+    }
+    res.sort();
+    Some((res, two))
+}
+
 #[cfg(test)]
 mod test {
     use super::*;
@@ -270,5 +404,7 @@ mod test {
         assert_eq!(show_set(&o.two_valued()), "{TTFF,TTFT}");
         assert_eq!(show_set(&stable_wide(&acs).0), "{TTFF}");
         assert_eq!(show_set(&stable_wide(&acs).1), "{TTFF,TTFT}");
+        assert_eq!(show_set(&stable_sparse(&acs).unwrap().0), "{TTFF}");
+        assert_eq!(show_set(&stable_sparse(&acs).unwrap().1), "{TTFF,TTFT}");
     }
 }
